@@ -14,6 +14,9 @@ MODULES = [
     "dnsref",
     "radiusref",
     "httpgen",
+    "inimodel",
+    "netaddr",
+    "ringmodel",
 ]
 
 
